@@ -21,9 +21,10 @@ Fixpoint feed_src (t : tree) (evs : list event) : res tree :=
   | e :: r => do t' <- handle_src t e; feed_src t' r
   end.
 
-(* tokenize_html(text): a new parser, a new Tree, the root object *)
+(* tokenize_html(text): a new parser HtmlToAst("") whose __init__ builds Tree(""), then feed(): clear(), the
+   handlers, the root object (regenerated tree_init_src / clear_src) *)
 Definition tokenize_src (parse : str -> list event) (text : str) : res (nat * store) :=
-  do t <- feed_src (init_tree []) (parse text); Ok (t_outmost t, t_cells t).
+  do t <- feed_src (clear_src (tree_init_src []) []) (parse text); Ok (t_outmost t, t_cells t).
 
 (* "".join(child.render() for child in ids): Element.render as modelled in HtmlModel.v *)
 Definition render_join (st : store) (ids : list nat) : res str := render_list (S (length st)) st ids.
